@@ -1,6 +1,8 @@
 package harness
 
 import (
+	"bytes"
+	"compress/flate"
 	"fmt"
 	"strings"
 	"time"
@@ -752,5 +754,72 @@ func init() {
 		c.Res.Distinct = int64(n)
 		c.Sample("wt-handler | first=open-null then=")
 		c.Note("the real OnWebTransportSession handler over a real, initialised webtransport-go server (fake HTTP/3 response writer, the client's stream offered through the server's own StreamHijacker): 17 first packets (well-formed handshake, upgrade for a known / unknown sid, 0null, 0{}, 0[], sid of the wrong type, truncated JSON, non-open first packet, empty / binary / truncated / oversized frames, silence, disconnect, no stream) x a following message / garbage / disconnect; no panic, handler returns, no session created or disturbed by a refused handshake, canary round trip")
+	})
+}
+
+// A compressed frame that inflates above the maximum payload size arrives while the application's
+// batch is being written on the same connection (E1): the refusal must not disturb the writer.
+func init() {
+	register("C09", "inflated-frame-while-writing", false, func(c *Ctx) {
+		c.ExploreDev("websocket with permessage-deflate: oversized inflated frame || application batch", Pick(c, 1, 2), Pick(c, 3, 5), func(x *vsched.Exec) {
+			o := config.DefaultServerOptions()
+			o.SetMaxHttpBufferSize(100)
+			o.SetPerMessageDeflate(&types.PerMessageDeflate{Threshold: 0})
+			w := NewWorld(x, o)
+			x.Frozen = true
+			canary := &PollClient{W: w, EIO: 4}
+			cr := canary.Get()
+			x.Settle()
+			if pk, err := canary.DecodeResp(cr); err == nil && len(pk) > 0 {
+				if open, e := ParseOpen(pk[0]); e == nil {
+					canary.Sid, _ = open["sid"].(string)
+				}
+			}
+			crec := w.ByID[canary.Sid]
+			ws := w.DialWS(4, "", false, true, "")
+			x.Settle()
+			if crec == nil || !ws.Ready() || len(w.Socks) != 2 {
+				x.Fail("setup: sessions")
+				return
+			}
+			rec := w.Socks[1]
+			x.Frozen = false
+			vsched.GoNamed("app-batch", func() {
+				for i := 0; i < 3; i++ {
+					rec.Sock.Send(types.NewStringBufferString(strings.Repeat("s", 60)), nil, nil)
+				}
+			})
+			vsched.GoNamed("client", func() {
+				var zb bytes.Buffer
+				zw, _ := flate.NewWriter(&zb, flate.BestCompression)
+				zw.Write([]byte("4" + strings.Repeat("m", 5000)))
+				zw.Flush()
+				f := maskedFrame(1, true, bytes.TrimSuffix(zb.Bytes(), []byte{0, 0, 0xff, 0xff}))
+				f[0] |= 0x40
+				if p := ws.pipe(); p != nil {
+					p.ClientWrite(f)
+				}
+			})
+			x.Run(x.Now() + 2*time.Second)
+			for _, t := range x.Panics() {
+				x.Fail("panic[websocket inflated-frame-while-writing]: thread %s: %v", t.Name, t.Panic)
+			}
+			for _, m := range rec.Messages() {
+				if len(m.Data) > 100 {
+					x.Fail("oversized-delivered[websocket inflated-frame-while-writing]: a message of %d bytes was delivered", len(m.Data))
+				}
+			}
+			if crec.Count("close") != 0 {
+				x.Fail("collateral-close[websocket inflated-frame-while-writing]: the other session closed with %v", crec.CloseReasons())
+			}
+			x.Frozen = true
+			p2 := canary.Post([]Pkt{Msg("c")})
+			x.Run(x.Now() + time.Second)
+			if !p2.wrote || p2.Code != 200 || len(crec.Messages()) != 1 {
+				x.Fail("canary-broken[websocket inflated-frame-while-writing]: the other session's round trip failed: status %d", p2.Code)
+			}
+		})
+		c.Res.Distinct = 1
+		c.Note("a websocket session with permessage-deflate: a compressed frame inflating to 50x the maximum payload size arrives while a three-message batch of the application is being written, every interleaving (scheduling points inside the connection's writes) up to the bound: no panic, nothing oversized delivered, the other session unaffected")
 	})
 }
